@@ -58,7 +58,7 @@ fn main() {
     // escape / multibyte alignment strings (valid UTF-8: these reach the unchecked sites via &str)
     let pieces = ["λ", "中", "𝒳", "a", "\\n", "\\x3bb;", "\\x41;", "\\\\", "\\\"", "\\u00e9", "\\101", "\\xff", "\\N{U+3bb}", " "];
     let mut k = 12345u64;
-    for _ in 0..240 {
+    for _ in 0..480 {
         let mut s = String::from("(sym-λ \"");
         for _ in 0..(1 + (k >> 60)) {
             k = k.wrapping_mul(6364136223846793005).wrapping_add(1442695040888963407);
@@ -66,6 +66,30 @@ fn main() {
         }
         s.push_str("\" #:kw中 1.5e3 12345678901234567890123 1e400)");
         inputs.push(s.into_bytes());
+    }
+    // a multi-byte character directly after a prefix that fails part-way through a token:
+    // the resumed parser starts wherever the error left the source
+    let prefixes = ["#x", "#", "1e", "\"\\", "\"\\x4", "#\\x", "?\\^", "#u8(1", "(a .", "#:", "-", "+.", "1.", "|"];
+    for (i, pre) in prefixes.iter().enumerate() {
+        for mb in ["é", "中t", "𝒳 "] {
+            inputs.push(format!("{}{}{} z", pre, mb, if i % 2 == 0 { "λ" } else { "\" q" }).into_bytes());
+        }
+    }
+    // tokens that cross the initial capacity of the scratch buffer (128) with a
+    // multi-byte character on the boundary, copied because of a leading escape
+    for at in [125usize, 126, 127, 128] {
+        for mb in ["é", "中", "𝒳"] {
+            for (open, close) in [("\"\\n", "\""), ("s", ""), ("#:k", ""), ("\"", "\"")] {
+                let mut t = String::from(open);
+                while t.len() < at {
+                    t.push('a');
+                }
+                t.push_str(mb);
+                t.push_str("tail");
+                t.push_str(close);
+                inputs.push(t.into_bytes());
+            }
+        }
     }
     let opts = [Options::default(), Options::elisp()];
     let (mut parses, mut strs, mut used) = (0u64, 0u64, 0u64);
@@ -94,7 +118,28 @@ fn main() {
                 while let Ok(Some(d)) = p.next_datum() {
                     results.push(d.value().clone());
                 }
-                parses += 2;
+                // the same parser kind asked again after each error
+                let mut p = Parser::from_str_custom(s, o);
+                for _ in 0..8 {
+                    match p.next_value() {
+                        Ok(Some(v)) => results.push(v),
+                        Ok(None) => break,
+                        Err(_) => {}
+                    }
+                }
+                let mut p = Parser::from_reader_custom(&input[..], o);
+                for _ in 0..8 {
+                    match p.next_datum() {
+                        Ok(Some(d)) => {
+                            // owned copies and their drop
+                            let c = d.clone();
+                            results.push(lexpr::Value::from(c));
+                        }
+                        Ok(None) => break,
+                        Err(_) => {}
+                    }
+                }
+                parses += 4;
             }
             for v in &results {
                 walk(v, &mut strs);
